@@ -109,17 +109,19 @@ def base_cases(ctx):
     out = []
     for autosync in (1, 0):
         for w in (("plain", 3), ("sharded", 3, 9)):
-            for situation in ("miss", "hit", "secondary", "over"):
+            for situation in ("miss", "hit", "secondary", "over", "victim"):
                 d = G.key_path(w, "w", KEY).rsplit("/", 1)[0]
                 plants = {"miss": [], "hit": [G.plant(G.key_path(w, "w", KEY), "A")], "secondary": [G.plant("r0/" + KEY[0], "R")],
-                          "over": [G.plant("%s/a" % d, "x", mtime=G.T0, atime=G.T0 + 5), G.plant("%s/b" % d, "x", mtime=G.T0 + 1), G.plant("%s/c" % d, "x", mtime=G.T0 + 2), G.plant("%s/e" % d, "x", mtime=G.T0 + 3)]}[situation]
+                          "over": [G.plant("%s/a" % d, "x", mtime=G.T0, atime=G.T0 + 5), G.plant("%s/b" % d, "x", mtime=G.T0 + 1), G.plant("%s/c" % d, "x", mtime=G.T0 + 2), G.plant("%s/e" % d, "x", mtime=G.T0 + 3)],
+                          # the key is present but is itself the victim of the maintenance this very write runs
+                          "victim": [G.plant(G.key_path(w, "w", KEY), "A", mtime=G.T0 - 50), G.plant("%s/a" % d, "x", mtime=G.T0, atime=G.T0 + 5), G.plant("%s/b" % d, "x", mtime=G.T0 + 1, atime=G.T0 + 6), G.plant("%s/c" % d, "x", mtime=G.T0 + 2, atime=G.T0 + 7)]}[situation]
                 for size in (("V", 1), ("empty", 1), ("rep:y:4097", 3), ("rep:z:300000", 5)):
                     for opk in (("set",), ("put",), ("set_temp",), ("put_temp",), ("ensure",), ("gou", "replace"), ("gou", "promote")):
                         if ctx.quick() and size[0].startswith("rep:z") and opk[0] not in ("set", "ensure"):
                             continue
                         L = G.header(w, (("plain",),), "none", autosync=autosync)
                         L += plants
-                        L.append(G.FIRE if situation == "over" else G.NOFIRE)
+                        L.append(G.FIRE if situation in ("over", "victim") else G.NOFIRE)
                         if opk[0] in ("set", "put", "set_temp", "put_temp"):
                             L.append(G.op(0, opk[0], KEY, size[0], size[1]))
                         elif opk[0] == "ensure":
@@ -195,7 +197,7 @@ def run(ctx):
         if k not in seen:
             seen.add(k); uniq.append(v)
     cov = {"evaluations": len(res) + len(fres), "distinct_nontrivial": nontriv,
-           "rule": "publishing paths {set, put, set_temp_file, put_temp_file, ensure, get_or_update Replace / Promote} x {plain, sharded} x {miss, hit, secondary hit to promote, over capacity with maintenance} x value sizes {1 B, empty, 4097 B in 3 chunks, 300 kB in 5 chunks} x auto_sync {on, off}, complete call trace of the operation, plus every flush failing in turn (EIO): a per-inode monitor (descriptor and name tracking through rename/link) requires a successful flush after the last write and before the publishing rename/link, no write bit at publication, no write/truncate/chmod/fchmod of an inode once visible, no publication after a failed flush; model/implementation trace agreement. Non-trivial = a publication or a failed flush occurs.",
+           "rule": "publishing paths {set, put, set_temp_file, put_temp_file, ensure, get_or_update Replace / Promote} x {plain, sharded} x {miss, hit, secondary hit to promote, over capacity with maintenance, key present but evicted by the maintenance of this very write} x value sizes {1 B, empty, 4097 B in 3 chunks, 300 kB in 5 chunks} x auto_sync {on, off}, complete call trace of the operation, plus every flush failing in turn (EIO): a per-inode monitor (descriptor and name tracking through rename/link) requires a successful flush after the last write and before the publishing rename/link, no write bit at publication, no write/truncate/chmod/fchmod of an inode once visible, no publication after a failed flush; model/implementation trace agreement. Non-trivial = a publication or a failed flush occurs.",
            "samples": samples, "traces_validated_against_impl": agree, "failing_flush_runs": len(fres)}
     if not ctx.quick():
         rc, o = C.coqchk(PROPS)
